@@ -39,11 +39,7 @@ Theorem C15_attr : forall class_attrs s k,
   existsb (str_eqb k) class_attrs = false -> str_eqb k s_mnemonic_transforms = false ->
   (contains s k = true -> py_getattr class_attrs s k = ires_map AttrItem (getitem s (KStr k))) /\
   (contains s k = false -> py_getattr class_attrs s k = IErr AttributeError).
-Proof.
-  intros ca s k H1 H2. split; intro C.
-  - apply py_getattr_present; assumption.
-  - unfold py_getattr. rewrite H1, (getattr_missing s k C). reflexivity.
-Qed.
+Proof. exact py_getattr_both. Qed.
 
 (* a missing key raises KeyError from item access and from deletion *)
 Theorem C15_missing : forall s k, contains s k = false ->
